@@ -46,7 +46,7 @@ def cases_for(rng, tier):
                       "ops": [op, {"op": "write", "path": "/m", "val": histgen.rand_data(rng, dt, prod(dims)).hex()}]})
     # the remaining dataset kinds of the public write API: compound (CreateCompoundDataset, packed and padded members, v1/v3
     # encodings), array, enum, opaque with tags, object / region references, variable-length; contiguous and chunked
-    for i in range(700 if tier == "quick" else 14000):
+    for i in range(500 if tier == "quick" else 14000):
         dims = histgen.rand_shape(rng, maxrank=3, maxelems=120)
         if rng.random() < 0.4:
             comp = histgen.rand_compound(rng)
